@@ -72,23 +72,24 @@ theorem sem_subMergeAll_lem {e : Ex} (hv : e.valid = true) (hp : e.noPtile = tru
     · simp only [hW, and_self, if_true]
     · simp only [hW, if_false]
 
-/-- all the raw points of the sources `srcs` in the periods `ts`, source by source -/
-def srcPoints (pts : Src → Int → List Pt) (srcs : List Src) (ts : List Int) : List Pt :=
-  (srcs.map (fun op => (ts.map (pts op)).flatten)).flatten
+/-- all the raw points of the members `l` (e.g. scan rows) in the periods `ts`, member by member,
+    period by period -/
+def memberPoints {ι : Type} (pts : ι → Int → List Pt) (l : List ι) (ts : List Int) : List Pt :=
+  (l.map (fun i => (ts.map (pts i)).flatten)).flatten
 
 theorem mergeAllOnto_acc (x : Ext) {e : Ex} (hv : e.valid = true) (hp : e.noPtile = true) (otherRes : Int)
-    (pts : Src → Int → List Pt) (ts : List Int) :
-    ∀ (srcs : List Src) (pre : List Pt),
-      (∀ op ∈ srcs, ∀ t ∈ ts, op.1.at e otherRes t = e.acc x (pts op t)) →
-      mergeAllOnto e otherRes srcs ts (e.acc x pre) = e.acc x (pre ++ srcPoints pts srcs ts) := by
-  intro srcs
-  induction srcs with
-  | nil => intro pre _; simp [mergeAllOnto, srcPoints]
-  | cons op srcs ih =>
+    {ι : Type} (g : ι → Src) (pts : ι → Int → List Pt) (ts : List Int) :
+    ∀ (l : List ι) (pre : List Pt),
+      (∀ i ∈ l, ∀ t ∈ ts, (g i).1.at e otherRes t = e.acc x (pts i t)) →
+      mergeAllOnto e otherRes (l.map g) ts (e.acc x pre) = e.acc x (pre ++ memberPoints pts l ts) := by
+  intro l
+  induction l with
+  | nil => intro pre _; simp [mergeAllOnto, memberPoints]
+  | cons i l ih =>
     intro pre h
-    have ih' := ih (pre ++ (ts.map (pts op)).flatten) (fun o ho => h o (by simp [ho]))
-    unfold mergeAllOnto srcPoints at ih' ⊢
-    simp only [List.foldl_cons, List.map_cons, List.flatten_cons]
-    rw [mergeOnto_acc x hv hp otherRes op.1 (pts op) ts pre (h op (by simp)), ih', List.append_assoc]
+    have ih' := ih (pre ++ (ts.map (pts i)).flatten) (fun o ho => h o (by simp [ho]))
+    unfold mergeAllOnto memberPoints at ih' ⊢
+    simp only [List.map_cons, List.foldl_cons, List.flatten_cons]
+    rw [mergeOnto_acc x hv hp otherRes (g i).1 (pts i) ts pre (h i (by simp)), ih', List.append_assoc]
 
 end Zeno
